@@ -106,56 +106,83 @@ Theorem C19_bp_self_loop_refuted :
 Proof. exact bp_self_loop_refuted. Qed.
 Print Assumptions C19_bp_self_loop_refuted.
 
-(* ---- stepping (model/DapStep.v: TestRunner::step_over / step_out on the uninterrupted run, indexed by instruction).
+(* ---- stepping (model/DapStep.v: TestRunner::step_over / step_out / run_until_return on the uninterrupted run, indexed by
+   instruction; `depthZ` counts JSR up and RTS down from the opcodes of the run).
    The step commands only ever call execute_instruction, so they move along the uninterrupted run: a command started at
    index i leaves the machine at an index j >= i having executed exactly the instructions i .. j-1 of that run. *)
-Theorem C19_step_sequence : forall (pcT spT opT : Z -> Z) (fuel : nat) (i j : Z),
-  (step_over pcT opT fuel i = Some j \/ step_out spT opT fuel i = Some j \/ exec_in opT i = j) -> i <= j.
+Theorem C19_step_sequence : forall (opT : Z -> Z) (fuel : nat) (i j : Z),
+  (step_over opT fuel i = Some j \/ step_out opT fuel i = Some j \/ exec_in opT i = j) -> i <= j.
 Proof. exact step_forward. Qed.
 Print Assumptions C19_step_sequence.
 
-(* `next` on a JSR is one step: it lands where the call has just returned (first index after i at i's call depth),
-   provided the CPU returns calls to the instruction after them and the return address is not passed inside the call
-   (a recursive call through the same site stops `next` early).  On anything else `next` is `stepIn`. *)
-Theorem C19_next_over_call : forall (pcT opT : Z -> Z) (fuel : nat) (i j : Z),
-  returns_to_caller pcT opT ->
+(* `next` on a JSR is one step: it lands where that call has returned (first index after i at i's call depth) -- no
+   hypothesis on the CPU, on what the subroutine pushes, or on recursion (after fix 8107cbd).  On anything else `next`
+   is `stepIn`. *)
+Theorem C19_next_over_call : forall (opT : Z -> Z) (fuel : nat) (i j : Z),
   returns_at opT i j ->
-  (forall k, i < k < j -> pcT k <> pcT i + 3) ->
-  (forall k, i <= k < j -> finT opT k = false) ->
+  (forall m, i <= m < j -> finT opT m = false) ->
   (Z.to_nat (j - i) <= fuel)%nat ->
-  step_over pcT opT fuel i = Some j.
+  step_over opT fuel i = Some j.
 Proof. exact next_over_call. Qed.
 Print Assumptions C19_next_over_call.
 
-Theorem C19_next_plain : forall (pcT opT : Z -> Z) (fuel : nat) (i : Z),
-  is_jsr opT i = false -> step_over pcT opT fuel i = Some (exec_in opT i).
+Theorem C19_next_plain : forall (opT : Z -> Z) (fuel : nat) (i : Z),
+  is_jsr opT i = false -> step_over opT fuel i = Some (exec_in opT i).
 Proof. exact next_plain. Qed.
 Print Assumptions C19_next_plain.
 
-(* `stepOut` (current runner, after fix 7e8ab84: nested calls are counted) lands where the subroutine the machine is in
-   has just returned -- the first later index below the current call depth -- whatever the subroutine pushed and however
-   it recursed; with c the call of i's frame that is the index the call returns at, and (given the CPU returns calls to
-   the instruction after them) its pc is the instruction after the call. *)
-Theorem C19_stepout_returns : forall (spT opT : Z -> Z) (fuel : nat) (i j : Z),
-  0 <= i < j -> spT i <= 253 ->
+(* `stepOut` lands where the subroutine the machine is in has just returned -- the first later index below the current
+   call depth (after fix 7e8ab84) ... *)
+Theorem C19_stepout_returns : forall (opT : Z -> Z) (fuel : nat) (i j : Z),
+  0 <= i < j -> 0 < call_depth opT (Z.to_nat i) ->
   depthZ opT j = depthZ opT i - 1 ->
   (forall m, i < m < j -> depthZ opT m >= depthZ opT i) ->
   (forall m, i <= m < j -> finT opT m = false) ->
   (Z.to_nat (j - i) <= fuel)%nat ->
-  step_out spT opT fuel i = Some j.
+  step_out opT fuel i = Some j.
 Proof. exact stepout_returns. Qed.
 Print Assumptions C19_stepout_returns.
 
-Theorem C19_stepout_after_call : forall (pcT spT opT : Z -> Z) (fuel : nat) (c i j : Z),
-  frame_call opT c i -> returns_at opT c j -> spT i <= 253 ->
+(* ... which, with c the call that opened i's frame, is the index that call returns at ... *)
+Theorem C19_stepout_after_call : forall (opT : Z -> Z) (fuel : nat) (c i j : Z),
+  frame_call opT c i -> returns_at opT c j ->
   (forall m, i <= m < j -> finT opT m = false) ->
   (Z.to_nat (j - i) <= fuel)%nat ->
-  i < j /\ step_out spT opT fuel i = Some j /\ (returns_to_caller pcT opT -> pcT j = pcT c + 3).
+  i < j /\ step_out opT fuel i = Some j.
 Proof. exact stepout_after_call. Qed.
 Print Assumptions C19_stepout_after_call.
 
-(* F-C19b, the runner as pinned (`step_out_pinned`: the two bytes above the stack pointer taken as the return address):
-   correct only with a clean stack ... *)
+(* ... and outside any subroutine it executes nothing (after fix 058ffc4). *)
+Theorem C19_stepout_top_level : forall (opT : Z -> Z) (fuel : nat) (i : Z),
+  call_depth opT (Z.to_nat i) = 0 -> step_out opT fuel i = Some i.
+Proof. exact stepout_top_level. Qed.
+Print Assumptions C19_stepout_top_level.
+
+(* The runner as pinned.  `next` (run until pc = call site + 3) was right when calls return to the instruction after them
+   and the return address is not passed inside the call ... *)
+Theorem C19_next_pinned_over_call : forall (pcT opT : Z -> Z) (fuel : nat) (i j : Z),
+  returns_to_caller pcT opT ->
+  returns_at opT i j ->
+  Known_next_reenters_call_site pcT i j = false ->
+  (forall k, i <= k < j -> finT opT k = false) ->
+  (Z.to_nat (j - i) <= fuel)%nat ->
+  step_over_pinned pcT opT fuel i = Some j.
+Proof. exact next_pinned_over_call. Qed.
+Print Assumptions C19_next_pinned_over_call.
+
+(* ... and wrong on recursion through one call site: on the run of corpus/C19/recursive_next.asm, `next` on the `jsr rec`
+   of the first activation (index 4, returns at 14) stopped at index 10, two activations deeper; the repaired one lands
+   on 14, and `stepOut` from the innermost activation (index 10) lands in its caller's activation (index 12). *)
+Theorem C19_next_recursion_refuted :
+  returns_at r_op 4 14 /\ r_pc 14 = r_pc 4 + 3 /\
+  Known_next_reenters_call_site r_pc 4 14 = true /\
+  step_over_pinned r_pc r_op 100 4 = Some 10 /\
+  step_over r_op 100 4 = Some 14 /\
+  step_out r_op 100 10 = Some 12.
+Proof. exact next_recursion_refuted. Qed.
+Print Assumptions C19_next_recursion_refuted.
+
+(* `stepOut` (the two bytes above the stack pointer taken as the return address) was right only with a clean stack ... *)
 Theorem C19_stepout_pinned_clean : forall (pcT spT opT retT : Z -> Z) (fuel : nat) (c i j : Z),
   returns_to_caller pcT opT ->
   frame_call opT c i -> returns_at opT c j -> i <= j ->
@@ -168,14 +195,14 @@ Theorem C19_stepout_pinned_clean : forall (pcT spT opT retT : Z -> Z) (fuel : na
 Proof. exact stepout_pinned_clean. Qed.
 Print Assumptions C19_stepout_pinned_clean.
 
-(* ... and wrong after `pha`: on the run of corpus/C19/stepout_after_pha.asm, stopped on the `nop` after the `pha` (index 4,
-   frame of the call at index 2, which returns at index 7), the pinned step_out took 1 + A + 256 * (low byte of the
-   return address) = $0608 for the return address and ran to the test's brk (index 8); the repaired one lands on 7. *)
+(* ... and wrong after `pha` (F-C19b): on the run of corpus/C19/stepout_after_pha.asm, stopped on the `nop` after the `pha`
+   (index 4, frame of the call at index 2, which returns at index 7), it took 1 + A + 256 * (low byte of the return
+   address) = $0608 for the return address and ran to the test's brk (index 8); the repaired one lands on 7. *)
 Theorem C19_stepout_dirty_refuted :
   frame_call w_op 2 4 /\ returns_at w_op 2 7 /\ w_pc 7 = w_pc 2 + 3 /\
   Known_stepout_stack_dirty w_pc w_ret 2 4 = true /\
   step_out_pinned w_pc w_sp w_op w_ret 100 4 = Some 8 /\
-  step_out w_sp w_op 100 4 = Some 7.
+  step_out w_op 100 4 = Some 7.
 Proof. exact stepout_dirty_refuted. Qed.
 Print Assumptions C19_stepout_dirty_refuted.
 
